@@ -183,7 +183,18 @@ func genSoup(t *rapid.T) string {
 	n := rapid.IntRange(1, 40).Draw(t, "soupLen")
 	var sb strings.Builder
 	if rapid.IntRange(0, 3).Draw(t, "startWithHeader") > 0 {
-		sb.WriteString(rapid.SampledFrom([]string{"S1F1", "S1F1 W", "S2F2 H->E nm", "s3f5 [W]"}).Draw(t, "hdr"))
+		if rapid.IntRange(0, 2).Draw(t, "numericHeader") == 2 {
+			// stream / function numbers at and beyond their ranges, with every wait-bit spelling
+			num := func() string {
+				return rapid.SampledFrom([]string{"0", "1", "2", "127", "128", "129", "255", "256", "257", "65535", "65537", "4294967297", "9223372036854775807", "9223372036854775808", "99999999999999999999", "99999999999999999998"}).Draw(t, "hdrNum")
+			}
+			sb.WriteString("S" + num() + "F" + num() + rapid.SampledFrom([]string{"", " W", " [W]", " w", " W H->E", " W H<-E name", " [W] H<->E"}).Draw(t, "hdrWait"))
+			if rapid.Bool().Draw(t, "completeAtOnce") {
+				sb.WriteString(rapid.SampledFrom([]string{" .", "\n.", " <L> .", "\n<U1 1>\n."}).Draw(t, "hdrBody"))
+			}
+		} else {
+			sb.WriteString(rapid.SampledFrom([]string{"S1F1", "S1F1 W", "S2F2 H->E nm", "s3f5 [W]"}).Draw(t, "hdr"))
+		}
 		sb.WriteString(rapid.SampledFrom([]string{" ", "\n", "", "\t"}).Draw(t, "hsep"))
 	}
 	for i := 0; i < n; i++ {
